@@ -197,3 +197,167 @@ def c12_driver(ctx):
                 res["oracle_fail"].append(("reported-ok-but-destination-not-new", what))
     shutil.rmtree(base, ignore_errors=True)
     return res
+
+
+# ---------------------------------------------------------------- CLI build shared by C11 / C20
+CLI_TARGET = "/verif/.build/cli-target"
+
+
+def build_cli():
+    env = dict(os.environ, CARGO_NET_OFFLINE="true", CARGO_TARGET_DIR=CLI_TARGET)
+    p = subprocess.run(["cargo", "build", "-p", "warcraft-rs", "--offline", "--quiet"], cwd="/repo", env=env,
+                       stdout=subprocess.PIPE, stderr=subprocess.STDOUT, text=True)
+    return p.returncode == 0, p.stdout, os.path.join(CLI_TARGET, "debug", "warcraft-rs")
+
+
+def _snapshot(root):
+    snap = {}
+    for d, dirs, files in os.walk(root):
+        for f in files:
+            p = os.path.join(d, f)
+            try:
+                stt = os.lstat(p)
+                h = hashlib.sha1(open(p, "rb").read()).hexdigest() if not os.path.islink(p) else os.readlink(p)
+                snap[p] = (stt.st_size, stt.st_mtime_ns, h)
+            except OSError:
+                pass
+        for dd in dirs:
+            snap[os.path.join(d, dd) + "/"] = ("dir",)
+    return snap
+
+
+class _R:
+    def __init__(self, seed):
+        self.s = (seed ^ 0x9E3779B97F4A7C15) & (2**64 - 1)
+
+    def next(self):
+        self.s = (self.s + 0x9E3779B97F4A7C15) & (2**64 - 1)
+        z = self.s
+        z = ((z ^ (z >> 30)) * 0xBF58476D1CE4E5B9) & (2**64 - 1)
+        z = ((z ^ (z >> 27)) * 0x94D049BB133111EB) & (2**64 - 1)
+        return z ^ (z >> 31)
+
+    def below(self, n):
+        return self.next() % n if n else 0
+
+    def pick(self, xs):
+        return xs[self.below(len(xs))]
+
+
+def c11_driver(ctx):
+    """run the freshly built CLI on archives with hostile entry names inside a deep sandbox; snapshot before/after"""
+    res = {"evals": 0, "nontrivial": 0, "stats": {}, "samples": [], "oracle_fail": [], "disagreements": [], "model_cases": 0}
+    st = res["stats"]
+    ok, out, cli = build_cli()
+    if not ok:
+        res["oracle_fail"].append(("cli-does-not-build", out[-800:]))
+        return res
+    wvh, wvmodel, tier, seed = ctx["wvh"], ctx["wvmodel"], ctx["tier"], ctx["seed"]
+    rng = _R(seed)
+    root = os.path.join(ctx["outdir"], "sb11")
+    shutil.rmtree(root, ignore_errors=True)
+    outdir = os.path.join(root, "l1", "l2", "l3", "l4", "out")
+    os.makedirs(outdir)
+    for canary in ("l1/canary.txt", "l1/l2/l3/l4/sibling.txt", "top.txt"):
+        open(os.path.join(root, canary), "w").write("canary")
+    dirs = ["..", ".", "", "a", "Dir", "x" * 120, "\u00fc\u4e16", "C:", "b.dat", "...", " ", "con"]
+    names, edge = [], []
+    n_names = 90 if tier == "quick" else 400
+    while len(names) < n_names:
+        k = rng.below(5)
+        parts = [rng.pick(dirs) for _ in range(k)] + ["f%d.txt" % len(names)]     # unique leaf: no file/dir collisions
+        sep = [rng.pick(["\\", "/", "\\", "\\\\"]) for _ in range(k + 1)]
+        prefix = rng.pick(["", "", "", "\\", "/", "C:\\", "C:", "\\\\?\\", "..\\", "../"])
+        name = prefix + "".join(p_ + s_ for p_, s_ in zip(parts[:-1], sep)) + parts[-1]
+        if name.count("..") - name.count("...") > 3 or name.startswith("-"):
+            continue
+        names.append(name)
+    # absolute names pointing into the sandbox (an escape lands inside it and is detected by the snapshot)
+    for i in range(4):
+        names.append(rng.pick(["", "C:"]) + (root + "/abs_escape_%d.txt" % i).replace("/", "\\"))
+        names.append(root + "/abs_fwd_%d.txt" % i)
+    names += ["..\\escaped.txt", "..\\..\\..\\up3.txt", "a\\..\\..\\b.txt", "World\\Maps\\../../../mixed.txt", "ok\\plain.txt", "UPPER\\File.TXT"]
+    # edge names (weird last components: the extractor may abort on them; only the snapshot oracle applies)
+    edge = ["a\\", "a\\.", "a\\..", "..", ".", "\\", "C:", "x\\..\\..", "..\\..\\", "dir\\sub\\..\\..\\..\\e.txt", "\\\\server\\share\\f.txt"]
+    namesfile = os.path.join(root, "names.hex")
+    open(namesfile, "w").write("\n".join(n.encode().hex() for n in names) + "\n")
+    base = os.path.join(root, "base.mpq")
+    patch = os.path.join(root, "patch.mpq")
+    edgea = os.path.join(root, "edge.mpq")
+    r0 = subprocess.run([wvh, "fsop", "mk11", base, namesfile], stdout=subprocess.PIPE, text=True)
+    half = os.path.join(root, "names2.hex")
+    open(half, "w").write("\n".join(n.encode().hex() for n in names[::2]) + "\n")
+    subprocess.run([wvh, "fsop", "mk11", patch, half], stdout=subprocess.DEVNULL)
+    edgef = os.path.join(root, "edge.hex")
+    open(edgef, "w").write("\n".join(n.encode().hex() for n in edge) + "\n")
+    subprocess.run([wvh, "fsop", "mk11", edgea, edgef], stdout=subprocess.DEVNULL)
+    if r0.returncode != 0 or not os.path.exists(base):
+        res["oracle_fail"].append(("sandbox-archive-not-built", r0.stdout[:300]))
+        return res
+    # model prediction per name
+    reqs = []
+    for pres in (0, 1):
+        for n in names:
+            reqs.append("c11rel %d %s" % (pres, n.encode().hex()))
+    mo = subprocess.run([wvmodel], input="\n".join(reqs) + "\n", stdout=subprocess.PIPE, text=True).stdout.split("\n")
+    pred = {}
+    for r, a in zip(reqs, mo):
+        _, pres, hx = r.split(" ")
+        pred[(int(pres), hx)] = None if a == "none" else "/".join(bytes.fromhex(c).decode("utf-8", "surrogateescape") for c in a.split("/"))
+    for pres in (0, 1):
+        for chain in (0, 1):
+            for explicit in (0, 1):
+                for skip in ((1,) if tier == "quick" and (chain or explicit) else (1, 0)):
+                    shutil.rmtree(outdir, ignore_errors=True)
+                    os.makedirs(outdir)
+                    before = _snapshot(root)
+                    cmd = [cli, "mpq", "extract", base, "-o", outdir, "--threads", "2"]
+                    if pres:
+                        cmd.append("-p")
+                    if skip:
+                        cmd.append("--skip-errors")
+                    if chain:
+                        cmd += ["--patch", patch]
+                    if explicit:
+                        cmd += ["--"] + names
+                    p = subprocess.run(cmd, stdout=subprocess.PIPE, stderr=subprocess.PIPE, text=True, cwd=outdir)
+                    after = _snapshot(root)
+                    res["evals"] += len(names)
+                    cfgname = "preserve=%d chain=%d explicit=%d skip=%d" % (pres, chain, explicit, skip)
+                    changed = [q for q in after if q not in before or before[q] != after[q]]
+                    outside = [q for q in changed if not (q == outdir + "/" or q.startswith(outdir + "/"))]
+                    inside = sorted(q[len(outdir) + 1:] for q in changed if q.startswith(outdir + "/") and not q.endswith("/"))
+                    st["c11.%s.files_written" % cfgname.replace(" ", ",")] = len(inside)
+                    for q in outside:
+                        res["oracle_fail"].append(("extraction-wrote-outside-output-dir", "%s: %s (exit %d)" % (cfgname, q, p.returncode)))
+                    if not outside:
+                        res["nontrivial"] += 1
+                    # model correspondence (only when every entry was processed: --skip-errors)
+                    if skip:
+                        want = sorted({pred[(pres, n.encode().hex())] for n in names if pred[(pres, n.encode().hex())] is not None})
+                        # an entry whose predicted path is a directory created for another entry cannot be written: tolerate subset
+                        res["model_cases"] += 1
+                        if not explicit:
+                            want = want + ["(listfile)"]     # whole-archive extraction also writes the listfile entry itself
+                        extra = [x for x in inside if x not in want]
+                        if extra:
+                            res["disagreements"].append((0, "extract " + cfgname, "wrote " + ", ".join(extra[:5]), "model predicts no such path"))
+                        missing = [w for w in want if w not in inside and not any(i.startswith(w + "/") for i in inside) and not any(w.startswith(i + "/") for i in inside)]
+                        if missing and len(res["samples"]) < 6:
+                            res["samples"].append({"config": cfgname, "predicted_but_not_written": missing[:5]})
+                    if len(res["samples"]) < 3:
+                        res["samples"].append({"config": cfgname, "exit": p.returncode, "written": inside[:6], "names": names[:6]})
+    if os.path.exists(edgea):
+        for pres in (0, 1):
+            for skip in (0, 1):
+                shutil.rmtree(outdir, ignore_errors=True)
+                os.makedirs(outdir)
+                before = _snapshot(root)
+                cmd = [cli, "mpq", "extract", edgea, "-o", outdir] + (["-p"] if pres else []) + (["--skip-errors"] if skip else [])
+                p = subprocess.run(cmd, stdout=subprocess.PIPE, stderr=subprocess.PIPE, text=True, cwd=outdir)
+                after = _snapshot(root)
+                res["evals"] += len(edge)
+                for q in [q for q in after if (q not in before or before[q] != after[q]) and not (q == outdir + "/" or q.startswith(outdir + "/"))]:
+                    res["oracle_fail"].append(("extraction-wrote-outside-output-dir", "edge names preserve=%d skip=%d: %s" % (pres, skip, q)))
+    shutil.rmtree(root, ignore_errors=True)
+    return res
